@@ -1,1 +1,397 @@
 //! Reference models (plain Vec<u8>; nothing here calls the code under test).
+//!
+//! Extension sets use the crate's documented public byte encoding: low nibble = left, high nibble =
+//! right, bit i of a nibble = base i (A,C,G,T).
+
+use std::collections::{BTreeMap, BTreeSet};
+
+use crate::util::{canon, is_pal, rc, Seq};
+
+pub const LEFT: u8 = 0;
+pub const RIGHT: u8 = 1;
+
+#[derive(Clone, Debug, PartialEq, Eq)]
+pub struct Read {
+    pub seq: Seq,
+    /// boundary extensions supplied by the caller for the two read ends (Exts byte)
+    pub exts: u8,
+    pub label: u8,
+}
+
+pub fn nib_complement(n: u8) -> u8 {
+    // base b -> 3-b : bit i -> bit 3-i
+    let mut r = 0;
+    for i in 0..4 {
+        if n & (1 << i) != 0 {
+            r |= 1 << (3 - i);
+        }
+    }
+    r
+}
+
+/// Reverse complement of an extension byte: sides swapped, bases complemented.
+pub fn ext_rc(e: u8) -> u8 {
+    let l = e & 0xf;
+    let r = e >> 4;
+    (nib_complement(l) << 4) | nib_complement(r)
+}
+
+pub fn ext_side(e: u8, side: u8) -> u8 {
+    if side == LEFT {
+        e & 0xf
+    } else {
+        e >> 4
+    }
+}
+
+pub fn ext_bases(e: u8, side: u8) -> Vec<u8> {
+    let n = ext_side(e, side);
+    (0..4u8).filter(|b| n & (1 << b) != 0).collect()
+}
+
+pub fn ext_count(e: u8, side: u8) -> u32 {
+    ext_side(e, side).count_ones()
+}
+
+pub fn ext_with(side: u8, base: u8) -> u8 {
+    if side == LEFT {
+        1 << base
+    } else {
+        1 << (base + 4)
+    }
+}
+
+/// For a palindromic k-mer the two sides are indistinguishable: compare up to E ∪ rc(E).
+pub fn ext_closure(e: u8) -> u8 {
+    e | ext_rc(e)
+}
+
+#[derive(Clone, Debug, PartialEq, Eq)]
+pub struct Obs {
+    pub read: usize,
+    pub off: usize,
+    pub label: u8,
+    /// extension byte contributed by this observation (already reverse-complemented if the window was flipped)
+    pub exts: u8,
+    pub flipped: bool,
+}
+
+#[derive(Clone, Debug, Default, PartialEq, Eq)]
+pub struct Entry {
+    pub obs: Vec<Obs>,
+    pub exts: u8,
+}
+
+impl Entry {
+    pub fn count(&self) -> usize {
+        self.obs.len()
+    }
+    pub fn labels(&self) -> Vec<u8> {
+        let s: BTreeSet<u8> = self.obs.iter().map(|o| o.label).collect();
+        s.into_iter().collect()
+    }
+}
+
+pub type Table = BTreeMap<Seq, Entry>;
+
+/// M-table: every window of every read, with its flanking bases (or the caller's boundary nibble at a read end).
+/// Unstranded: an observation whose reverse complement is <= the window is recorded on the reverse complement
+/// (so palindromes are recorded "flipped", like the implementation; compare palindromes up to `ext_closure`).
+pub fn build_table(reads: &[Read], k: usize, stranded: bool) -> Table {
+    let mut t: Table = BTreeMap::new();
+    for (ri, r) in reads.iter().enumerate() {
+        let n = r.seq.len();
+        if n < k {
+            continue;
+        }
+        for off in 0..=n - k {
+            let w = &r.seq[off..off + k];
+            let left = if off > 0 { 1u8 << r.seq[off - 1] } else { r.exts & 0xf };
+            let right = if off + k < n { 1u8 << r.seq[off + k] } else { r.exts >> 4 };
+            let e = left | (right << 4);
+            let (key, e, flipped) = if stranded {
+                (w.to_vec(), e, false)
+            } else {
+                let rw = rc(w);
+                if w < rw.as_slice() {
+                    (w.to_vec(), e, false)
+                } else {
+                    (rw, ext_rc(e), true)
+                }
+            };
+            let ent = t.entry(key).or_default();
+            ent.exts |= e;
+            ent.obs.push(Obs {
+                read: ri,
+                off,
+                label: r.label,
+                exts: e,
+                flipped,
+            });
+        }
+    }
+    t
+}
+
+pub fn extend(key: &[u8], side: u8, base: u8) -> Seq {
+    let k = key.len();
+    if side == RIGHT {
+        let mut v = key[1..].to_vec();
+        v.push(base);
+        v
+    } else {
+        let mut v = vec![base];
+        v.extend_from_slice(&key[..k - 1]);
+        v
+    }
+}
+
+/// The (K+1)-mer denoted by extension (key, side, base), as spelled from `key`'s orientation.
+pub fn kp1(key: &[u8], side: u8, base: u8) -> Seq {
+    if side == RIGHT {
+        let mut v = key.to_vec();
+        v.push(base);
+        v
+    } else {
+        let mut v = vec![base];
+        v.extend_from_slice(key);
+        v
+    }
+}
+
+/// Other endpoint of extension (key, side, base): (canonical neighbour, side of the neighbour that faces back,
+/// whether the neighbour is a palindrome (its facing side is then ambiguous)).
+pub fn neighbour(key: &[u8], side: u8, base: u8, stranded: bool) -> (Seq, u8, bool) {
+    let w = extend(key, side, base);
+    if stranded {
+        return (w, 1 - side, false);
+    }
+    let r = rc(&w);
+    if w == r {
+        (w, 1 - side, true)
+    } else if w < r {
+        (w, 1 - side, false)
+    } else {
+        (r, side, false)
+    }
+}
+
+/// Remove every extension whose target k-mer is not a key of the table (what pruning must produce).
+pub fn prune_exts<D: Clone>(t: &BTreeMap<Seq, (u8, D)>, stranded: bool) -> BTreeMap<Seq, (u8, D)> {
+    let mut out = BTreeMap::new();
+    for (key, (e, d)) in t {
+        let mut ne = 0u8;
+        for side in [LEFT, RIGHT] {
+            for b in ext_bases(*e, side) {
+                let (nb, _, _) = neighbour(key, side, b, stranded);
+                if t.contains_key(&nb) {
+                    ne |= ext_with(side, b);
+                }
+            }
+        }
+        out.insert(key.clone(), (ne, d.clone()));
+    }
+    out
+}
+
+/// Union-find over indices.
+pub struct Uf {
+    p: Vec<usize>,
+}
+
+impl Uf {
+    pub fn new(n: usize) -> Uf {
+        Uf { p: (0..n).collect() }
+    }
+    pub fn find(&mut self, x: usize) -> usize {
+        let mut r = x;
+        while self.p[r] != r {
+            r = self.p[r];
+        }
+        let mut c = x;
+        while self.p[c] != r {
+            let n = self.p[c];
+            self.p[c] = r;
+            c = n;
+        }
+        r
+    }
+    pub fn union(&mut self, a: usize, b: usize) {
+        let (ra, rb) = (self.find(a), self.find(b));
+        if ra != rb {
+            self.p[ra.max(rb)] = ra.min(rb);
+        }
+    }
+}
+
+#[derive(Debug, Default, Clone)]
+pub struct PartitionInfo {
+    /// components as sorted lists of canonical k-mers, sorted
+    pub parts: Vec<Vec<Seq>>,
+    pub compressible_links: usize,
+    /// links present in the table that are not compressible (branch, palindrome, self/hairpin link, predicate boundary)
+    pub blocked_links: usize,
+    pub has_palindrome: bool,
+    pub has_self_link: bool,
+    pub has_branch: bool,
+    pub has_join_boundary: bool,
+}
+
+/// M-graph: the expected node partition = connected components of *compressible* links.
+/// A link (x, side, b) -> (y, t) is compressible iff x != y, neither is a palindrome (unstranded), it is the
+/// sole extension on side `side` of x and on the facing side `t` of y, and `join(dx, dy)`.
+/// Precondition: every extension of the table references a present k-mer, and the table is consistent
+/// (y records the link back); both hold for pruned tables computed from reads.
+pub fn expected_partition<D>(
+    t: &BTreeMap<Seq, (u8, D)>,
+    stranded: bool,
+    join: &dyn Fn(&D, &D) -> bool,
+) -> Result<PartitionInfo, String> {
+    let keys: Vec<&Seq> = t.keys().collect();
+    let index: BTreeMap<&Seq, usize> = keys.iter().enumerate().map(|(i, k)| (*k, i)).collect();
+    let mut uf = Uf::new(keys.len());
+    let mut info = PartitionInfo::default();
+    for (i, x) in keys.iter().enumerate() {
+        let (ex, dx) = &t[*x];
+        let xpal = !stranded && is_pal(x);
+        if xpal {
+            info.has_palindrome = true;
+        }
+        for side in [LEFT, RIGHT] {
+            let bases = ext_bases(*ex, side);
+            if bases.len() > 1 {
+                info.has_branch = true;
+            }
+            for b in &bases {
+                let (y, tside, ypal) = neighbour(x, side, *b, stranded);
+                let j = match index.get(&y) {
+                    Some(j) => *j,
+                    None => return Err(format!("model precondition: extension to absent k-mer in pruned table")),
+                };
+                let (ey, dy) = &t[&y];
+                let mut ok = true;
+                if j == i {
+                    info.has_self_link = true;
+                    ok = false;
+                }
+                if xpal || ypal {
+                    ok = false;
+                }
+                if bases.len() != 1 {
+                    ok = false;
+                }
+                if !ypal && ext_count(*ey, tside) != 1 {
+                    ok = false;
+                }
+                if ok && !join(dx, dy) {
+                    info.has_join_boundary = true;
+                    ok = false;
+                }
+                if ok {
+                    uf.union(i, j);
+                    info.compressible_links += 1;
+                } else {
+                    info.blocked_links += 1;
+                }
+            }
+        }
+    }
+    let mut comp: BTreeMap<usize, Vec<Seq>> = BTreeMap::new();
+    for (i, x) in keys.iter().enumerate() {
+        comp.entry(uf.find(i)).or_default().push((*x).clone());
+    }
+    let mut parts: Vec<Vec<Seq>> = comp.into_values().collect();
+    for p in parts.iter_mut() {
+        p.sort();
+    }
+    parts.sort();
+    info.parts = parts;
+    Ok(info)
+}
+
+/// Check that a table is *consistent*: whenever x has an extension to a present k-mer y, y has the
+/// extension back to x on the facing side (palindromic endpoints: on either side).
+pub fn table_consistent<D>(t: &BTreeMap<Seq, (u8, D)>, stranded: bool) -> bool {
+    for (x, (ex, _)) in t {
+        for side in [LEFT, RIGHT] {
+            for b in ext_bases(*ex, side) {
+                let (y, tside, ypal) = neighbour(x, side, b, stranded);
+                if let Some((ey, _)) = t.get(&y) {
+                    // the base that leads back from y to x
+                    let w = kp1(x, side, b);
+                    let back_ok = |ts: u8| -> bool {
+                        ext_bases(*ey, ts).iter().any(|bb| {
+                            let w2 = kp1(&y, ts, *bb);
+                            w2 == w || (!stranded && rc(&w2) == w)
+                        })
+                    };
+                    let ok = if ypal || (!stranded && is_pal(x)) {
+                        back_ok(LEFT) || back_ok(RIGHT)
+                    } else {
+                        back_ok(tside)
+                    };
+                    if !ok {
+                        return false;
+                    }
+                }
+            }
+        }
+    }
+    true
+}
+
+/// Canonical (K+1)-mers between retained k-mers observed in the reads (for W_total comparisons).
+pub fn read_kp1s(reads: &[Read], k: usize, stranded: bool, retained: &dyn Fn(&Seq) -> bool) -> BTreeSet<Seq> {
+    let mut out = BTreeSet::new();
+    for r in reads {
+        let n = r.seq.len();
+        if n < k + 1 {
+            continue;
+        }
+        for off in 0..=n - k - 1 {
+            let w = &r.seq[off..off + k + 1];
+            let a = canon(&w[..k], stranded);
+            let b = canon(&w[1..], stranded);
+            if retained(&a) && retained(&b) {
+                out.insert(canon(w, stranded));
+            }
+        }
+    }
+    out
+}
+
+/// Model-side sharding of reads into pieces: the shard of a k-mer is a pure function of its canonical form,
+/// pieces are maximal runs of consecutive k-mers of the same shard, with the true flanking bases as boundary
+/// extensions (the read's own boundary extensions at the read ends).
+pub fn shard_reads(reads: &[Read], k: usize, stranded: bool, nshards: usize, seed: u64) -> Vec<Vec<Read>> {
+    let mut shards: Vec<Vec<Read>> = vec![Vec::new(); nshards.max(1)];
+    let shard_of = |w: &[u8]| -> usize {
+        let c = canon(w, stranded);
+        (crate::util::fnv64(&[&c[..], &seed.to_le_bytes()[..]].concat()) % nshards.max(1) as u64) as usize
+    };
+    for r in reads {
+        let n = r.seq.len();
+        if n < k {
+            continue;
+        }
+        let ids: Vec<usize> = (0..=n - k).map(|i| shard_of(&r.seq[i..i + k])).collect();
+        let mut start = 0;
+        while start < ids.len() {
+            let mut end = start;
+            while end + 1 < ids.len() && ids[end + 1] == ids[start] {
+                end += 1;
+            }
+            // piece covers k-mers start..=end : bases start .. end+k
+            let (a, b) = (start, end + k);
+            let left = if a > 0 { 1u8 << r.seq[a - 1] } else { r.exts & 0xf };
+            let right = if b < n { 1u8 << r.seq[b] } else { r.exts >> 4 };
+            shards[ids[start]].push(Read {
+                seq: r.seq[a..b].to_vec(),
+                exts: left | (right << 4),
+                label: r.label,
+            });
+            start = end + 1;
+        }
+    }
+    shards
+}
